@@ -33,7 +33,7 @@ func checkC03(c *Ctx) {
 	c.Rule("C03/R5", "port fidelity: each function of the byte-slice port that was carried over from the standard library's strconv unchanged agrees with the strconv function of the same name in $GOROOT, region by region (symbolic path tables: same path conditions, same calls in the same order, same stores, same results and same loop-variable updates after renaming the package and erasing register numbers)")
 	p := mustLoad(c, loadOpts{}, "./benchfmt", "./benchfmt/internal/bytesconv")
 	c03Errors(c, p)
-	c03FastFloat(c, p)
+	c03FastFloat(c, p, "C03/R2")
 	c03FastInt(c, p)
 	c03Exponent(c, p)
 	c03Port(c, "C03/R5")
@@ -138,8 +138,7 @@ func c03Errors(c *Ctx, p *Prog) {
 	c.Floor(R, "numeric parse calls in the reader", n, 2)
 }
 
-func c03FastFloat(c *Ctx, p *Prog) {
-	const R = "C03/R2"
+func c03FastFloat(c *Ctx, p *Prog, R string) {
 	// the wrapper: func([]byte) (float64, error) in benchfmt that calls bytesconv.ParseFloat
 	var fn *ssa.Function
 	for _, f := range p.Funcs("benchfmt") {
